@@ -1,7 +1,19 @@
 (* C07 — only advertised terminal features are used; fallbacks are faithful.
-   This file contains statements only; proofs live in proofs/. *)
-From Vx Require Import base.Prelude gen.GenPalette model.Colour model.RenderTypes model.Render model.Gate
-  proofs.ColourProofs proofs.GateProofs.
+   This file contains statements only; proofs live in proofs/.
+
+   Colour fallback.  Two models of Color.asIndex: as_index (model/Colour.v, exact integer distance
+   scaled by 10^4) and as_index_f (model/ColourFloat.v, the float64 arithmetic of the Go code:
+   IEEE-754 binary64, round to nearest even, as specified by Coq's Floats.SpecFloat = the
+   computational content of Flocq's binary64).  Proved: both return a nearest palette entry for
+   every colour and every table; the float comparison follows the exact order on all of
+   [-255,255]^3 x [-255,255]^3; the two models return the same entry unless the exact minimum is
+   attained by two entries (and then they can differ: C07_float_int_can_differ).
+   Still assumed (trusted base): the Go compiler evaluates the expression in binary64 without
+   fusing multiply and add (true on amd64 with GOAMD64=v1; the differential run compares bit
+   patterns of the same expression compiled by the same toolchain). *)
+From Coq Require Import Floats.SpecFloat.
+From Vx Require Import base.Prelude gen.GenPalette model.Colour model.ColourFloat model.RenderTypes model.Render model.Gate
+  proofs.ColourProofs proofs.ColourFloatProofs proofs.ColourFloatFlocq proofs.GateProofs.
 
 (* Without RGB support a colour is sent as Color.asIndex of it.  For every 32-bit colour
    value c: a non-RGB colour is unchanged; an RGB colour becomes a palette index n with
@@ -15,6 +27,95 @@ Theorem C07_fallback_colour_nearest : forall c : Z,
   else as_index c = c.
 Proof. intros c; exact (nearest_ok_spec colorIndex3 c (as_index c) (as_index_nearest c)). Qed.
 Print Assumptions C07_fallback_colour_nearest.
+
+(* ---- the float64 arithmetic of asIndex ---- *)
+
+(* Order.  For all channel differences d, d' in [-255,255]^3 (all that uint8 channels can produce):
+   if the exact weighted distance 900 dr^2 + 3481 dg^2 + 121 db^2 of d is strictly smaller than
+   that of d', then Go's `trial(d) < trial(d')` is true (and `trial(d') < trial(d)` false), and
+   `trial(d) == 0` holds exactly for d = (0,0,0). *)
+Theorem C07_float_distance_order : forall dr dg db er eg eb,
+  diff_ok dr && diff_ok dg && diff_ok db && diff_ok er && diff_ok eg && diff_ok eb = true ->
+  (wd dr dg db < wd er eg eb ->
+     f64ltb (fdist dr dg db) (fdist er eg eb) = true /\ f64ltb (fdist er eg eb) (fdist dr dg db) = false) /\
+  (f64eqb (fdist dr dg db) f64zero = true <-> dr = 0 /\ dg = 0 /\ db = 0).
+Proof. exact float_distance_order. Qed.
+Print Assumptions C07_float_distance_order.
+
+(* every trial value is +0 for the zero difference and otherwise a positive normal double within
+   relative error 2^-49 of the exact distance (the predicate the differential run evaluates on
+   the bit patterns Go produced); the model satisfies the whole per-case predicate *)
+Theorem C07_float_trial_spec : forall dr dg db er eg eb o,
+  diff_ok dr && diff_ok dg && diff_ok db && diff_ok er && diff_ok eg && diff_ok eb = true ->
+  trial_ok dr dg db (bits64 (fdist dr dg db)) = true /\
+  fcase_ok (dr, dg, db, (er, eg, eb), fcase_model (dr, dg, db, (er, eg, eb), o)) = true.
+Proof. exact float_trial_spec. Qed.
+Print Assumptions C07_float_trial_spec.
+
+(* Nearest.  The float loop of asIndex (first strict float minimum in table order, early exit
+   when dist == 0, uint8(i+16)), run on ANY table of at most 240 32-bit entries, returns for every
+   colour value c: c itself if c is not RGB; otherwise a palette index n in 16..255 whose entry is
+   at minimal exact weighted distance from c. *)
+Theorem C07_float_asindex_nearest : forall (tbl : list Z) (c : Z),
+  tbl <> [] -> zlen tbl <= 240 ->
+  let pal := map split3 tbl in
+  if is_rgb c
+  then exists n best, as_index_f_pal pal c = index_color n /\ 16 <= n <= 255 /\
+                      zget pal (n - 16) = Some best /\
+                      forall v, In v pal -> wdist (split3 c) best <= wdist (split3 c) v
+  else as_index_f_pal pal c = c.
+Proof. exact float_asindex_nearest. Qed.
+Print Assumptions C07_float_asindex_nearest.
+
+(* the same for the palette of color.go *)
+Theorem C07_float_fallback_colour_nearest : forall c : Z,
+  if is_rgb c
+  then exists n best, as_index_f c = index_color n /\ 16 <= n <= 255 /\
+                      zget colorIndex3 (n - 16) = Some best /\
+                      forall v, In v colorIndex3 -> wdist (split3 c) best <= wdist (split3 c) v
+  else as_index_f c = c.
+Proof. intros c; exact (nearest_ok_spec colorIndex3 c (as_index_f c) (as_index_f_nearest c)). Qed.
+Print Assumptions C07_float_fallback_colour_nearest.
+
+(* Ties.  Float and integer model return the same entry whenever exactly one table entry attains
+   the exact minimum (bd = the minimum found by the integer scan) ... *)
+Theorem C07_float_int_agree_unless_tie : forall (tbl : list Z) (c i bd : Z),
+  zlen tbl <= 240 -> is_rgb c = true ->
+  let pal := map split3 tbl in
+  scan (split3 c) pal 0 None = Some (i, bd) -> min_count (split3 c) pal bd = 1 ->
+  as_index_f_pal pal c = as_index_pal pal c.
+Proof. exact float_int_agree_unless_tie. Qed.
+Print Assumptions C07_float_int_agree_unless_tie.
+
+(* ... and on an exact tie they may differ: for #346570 the entries 59 (#5f5f5f) and
+   240 (#585858) are both at exact distance 1824385/10^4; the float values differ in the last bit and the
+   float loop (like the Go code) takes the later entry, the integer scan the first. *)
+Theorem C07_float_int_can_differ :
+  let c := rgb_color 52 101 112 in
+  as_index_f c = index_color 240 /\ as_index c = index_color 59 /\
+  exists a b, zget colorIndex3 (240 - 16) = Some a /\ zget colorIndex3 (59 - 16) = Some b /\
+              wdist (split3 c) a = wdist (split3 c) b /\
+              f64ltb (fdist3 (split3 c) a) (fdist3 (split3 c) b) = true.
+Proof. exact float_int_can_differ. Qed.
+Print Assumptions C07_float_int_can_differ.
+
+(* the function the differential run evaluates (integer scan when the minimum is unique, tabulated
+   float loop otherwise) is the float model, for every colour *)
+Theorem C07_checked_function_is_float_model : forall c : Z, as_index_x c = as_index_f c.
+Proof. exact as_index_x_eq. Qed.
+Print Assumptions C07_checked_function_is_float_model.
+
+(* the model's arithmetic is Flocq's binary64: the same expression over
+   Flocq.IEEE754.BinarySingleNaN (Bmult, Bplus, Bdiv, binary_normalize; prec 53, emax 1024,
+   mode_NE) has the spec_float image fdist, for ALL integers; comparisons are Bltb / Beqb.
+   (Depends on the axioms of the standard library's real numbers, because Flocq's operations
+   contain proofs about reals; no other theorem of this file does.) *)
+Theorem C07_fdist_is_flocq_binary64 : forall dr dg db : Z,
+  BinarySingleNaN.B2SF (bdist dr dg db) = fdist dr dg db /\
+  (forall x y : b64, BinarySingleNaN.Bltb x y = f64ltb (BinarySingleNaN.B2SF x) (BinarySingleNaN.B2SF y)) /\
+  (forall x y : b64, BinarySingleNaN.Beqb x y = f64eqb (BinarySingleNaN.B2SF x) (BinarySingleNaN.B2SF y)).
+Proof. intros dr dg db. exact (conj (bdist_sf dr dg db) (conj bltb_sf beqb_sf)). Qed.
+Print Assumptions C07_fdist_is_flocq_binary64.
 
 (* the palette the theorem speaks about is the one in color.go (translated on every run) *)
 Theorem C07_palette_is_translated : colorIndex3 = map split3 colorIndex /\ zlen colorIndex = 240.
@@ -47,6 +148,17 @@ Theorem C07_width_method_matches : forall u e n,
   (width_method u e n = UnicodeStd <-> u || e = true).
 Proof. intros u e n. unfold width_method. split; [reflexivity|]. destruct (u || e); [tauto|]. destruct n; split; congruence. Qed.
 Print Assumptions C07_width_method_matches.
+
+(* non-vacuity of the hypotheses of the float theorems *)
+Example C07_float_example :
+  diff_ok 255 && diff_ok (-255) && diff_ok 0 && diff_ok 11 && diff_ok 0 && diff_ok 30 = true /\
+  wd 0 0 29 < wd 11 0 0 /\ wd 11 0 0 = wd 0 0 30 /\
+  (colorIndex <> [] /\ zlen colorIndex <= 240) /\
+  (is_rgb (rgb_color 1 0 0) = true /\ scan (split3 (rgb_color 1 0 0)) colorIndex3 0 None = Some (0, 900) /\
+   min_count (split3 (rgb_color 1 0 0)) colorIndex3 900 = 1) /\
+  bits64 c30 = 4599075939470750515 /\ bits64 c59 = 4603489467105573601 /\ bits64 c11 = 4592590756007337001 /\
+  bits64 (fdist 255 255 255) = 4673776059897578782.
+Proof. vm_compute. repeat split; discriminate. Qed.
 
 (* non-vacuity: an RGB colour that is not a palette entry *)
 Example C07_example : is_rgb (rgb_color 1 0 0) = true /\ as_index (rgb_color 1 0 0) = index_color 16.
